@@ -1503,7 +1503,7 @@ func (c *gctx) isPairEquals(e ast.Expr, sc gscope) bool {
 		return false
 	}
 	sel, ok := call.Fun.(*ast.SelectorExpr)
-	if !ok {
+	if !ok || sel.Sel.Name != "Equals" {
 		return false
 	}
 	id, ok := unparen(sel.X).(*ast.Ident)
@@ -1514,8 +1514,9 @@ func (c *gctx) isPairEquals(e ast.Expr, sc gscope) bool {
 	if st == nil || !c.recvField(call.Args[0], sc, st.indexField) || !c.otherField(call.Args[2], sc, st.indexField) {
 		return false
 	}
+	// the embedded interface value of the other column: `other.(Column)` in the column packages fails on anything else
 	a1, ok := unparen(call.Args[1]).(*ast.SelectorExpr)
-	if !ok {
+	if !ok || a1.Sel.Name != "Column" {
 		return false
 	}
 	o, ok := unparen(a1.X).(*ast.Ident)
